@@ -63,12 +63,19 @@ Section Carrier.
                                  else tsub t0 (tln (tsub t1 (g_nth probs k))))
                       (seq 0 (length probs)))
     end.
-  (** BinaryCrossEntropy.loss_gradient, one sample: [(probs.T - labels).T] — the label VALUE is
-      subtracted from every channel of the row (as coded). *)
-  Definition g_bce_gradient_o (probs : list T) (y : nat) : list T := map (fun p => tsub p (tnat y)) probs.
+  (** BinaryCrossEntropy.loss_gradient, one sample (repo commit 018b4674):
+      one channel ([probs.shape[1] == 1]): [(probs.T - labels).T], the label value is subtracted;
+      otherwise [probs - one_hot]. *)
+  Definition g_bce_gradient_o (probs : list T) (y : nat) : list T :=
+    match probs with
+    | [p] => [tsub p (tnat y)]
+    | _ => g_ce_gradient_o probs y
+    end.
   Definition g_bce_gradient (row : list T) (y : nat) : list T := g_bce_gradient_o (map g_sigmoid row) y.
-  (** The derivative of the coded multi-channel loss (what a repaired loss_gradient returns). *)
-  Definition g_bce_gradient_onehot (row : list T) (y : nat) : list T := g_ce_gradient_o (map g_sigmoid row) y.
+  (** Legacy (before 018b4674, DESIGN.md D18): [(probs.T - labels).T] for any number of channels — the label
+      VALUE was subtracted from every channel of the row. Kept so that the defect's return is recognised. *)
+  Definition g_bce_gradient_legacy_o (probs : list T) (y : nat) : list T := map (fun p => tsub p (tnat y)) probs.
+  Definition g_bce_gradient_legacy (row : list T) (y : nat) : list T := g_bce_gradient_legacy_o (map g_sigmoid row) y.
 
   (** Mean over the samples: [value / n] with [n = len(labels)]. *)
   Definition g_mean_loss (loss_row : list T -> nat -> T) (signal : list (list T)) (labels : list nat) : T :=
@@ -87,7 +94,8 @@ Definition sigmoid_gradient_o : Q -> Q -> Q := g_sigmoid_gradient_o Qminus Qmult
 Definition softmax_row (expf : Q -> Q) : list Q -> list Q := g_softmax_row Qplus Qdiv 0%Q expf.
 Definition softmax_gradient_o : list Q -> list Q -> list Q := g_softmax_gradient_o Qplus Qminus Qmult 0%Q.
 Definition ce_gradient_o : list Q -> nat -> list Q := g_ce_gradient_o Qminus 0%Q 1%Q.
-Definition bce_gradient_o : list Q -> nat -> list Q := g_bce_gradient_o Qminus qnat.
+Definition bce_gradient_o : list Q -> nat -> list Q := g_bce_gradient_o Qminus 0%Q 1%Q qnat.
+Definition bce_gradient_legacy_o : list Q -> nat -> list Q := g_bce_gradient_legacy_o Qminus qnat.
 Definition ce_loss_row (expf lnf : Q -> Q) (eps : Q) : list Q -> nat -> Q :=
   g_ce_loss_row Qplus Qminus Qdiv 0%Q 1%Q expf lnf Qltb eps.
 Definition bce_loss_row (expf lnf : Q -> Q) (eps : Q) : list Q -> nat -> Q :=
@@ -303,13 +311,16 @@ Definition predict_row (row : list Q) : nat :=
   end.
 Definition compute_predictions (output : dmat) : list nat := map predict_row output.
 
-(** [predict_proba]: for a single output channel the code calls [np.vstack(1 - probs, probs)]
-    (two positional arguments), which raises TypeError; otherwise the output is returned. *)
-Definition predict_proba (output : dmat) : result dmat :=
+(** [predict_proba] (repo commit 166aefc2): for a single output channel ([probs.shape[1] == 1])
+    [np.hstack((1 - probs, probs))], the two columns (1 - p, p); otherwise the output is returned. *)
+Definition predict_proba (output : dmat) : dmat :=
+  match output with
+  | [_] :: _ => map (fun row => match row with [p] => [(1 - p)%Q; p] | _ => row end) output
+  | _ => output
+  end.
+(** Legacy (before 166aefc2): [np.vstack(1 - probs, probs)] (two positional arguments) raised TypeError. *)
+Definition predict_proba_legacy (output : dmat) : result dmat :=
   match output with
   | [_] :: _ => Err TypeError
   | _ => Ok output
   end.
-(** What the docstring promises in the single-channel case: the two columns (1 - p, p). *)
-Definition predict_proba_intended (output : dmat) : dmat :=
-  map (fun row => match row with [p] => [(1 - p)%Q; p] | _ => row end) output.
